@@ -25,6 +25,8 @@ import (
 	"sync/atomic"
 	"time"
 
+	"github.com/hyperledger/aries-framework-go/component/kmscrypto/doc/jose"
+	"github.com/hyperledger/aries-framework-go/component/storage/edv"
 	"github.com/hyperledger/aries-framework-go/component/storageutil/batchedstore"
 	"github.com/hyperledger/aries-framework-go/component/storageutil/cachedstore"
 	"github.com/hyperledger/aries-framework-go/component/storageutil/formattedstore"
@@ -427,6 +429,18 @@ func c13Target(name string) (c13Exec, c13Spec, func(r *Rng, g int) string, error
 	case "cached":
 		e, err := c13KVExec(cachedstore.NewProvider(mem.NewProvider(), mem.NewProvider()))
 		return e, c13KVSpec, kvGen, err
+	case "edv":
+		// formattedstore over the EDV encrypted formatter (ONE formatter instance serves every goroutine, as it serves every
+		// store of a provider): what the formatter keeps between calls is shared state
+		if c12Shared == nil {
+			c12SetupReal()
+		}
+		// (a decrypter of its own: the C12 environment's decrypter goes through a recording crypto that is not made for
+		// concurrent use)
+		dec := jose.NewJWEDecrypt(nil, envCrypto, c12Shared.kms)
+		e, err := c13KVExec(formattedstore.NewProvider(mem.NewProvider(), edv.NewEncryptedFormatter(c12Shared.enc, dec,
+			c12Shared.mac, edv.WithDeterministicDocumentIDs())))
+		return e, c13KVSpec, kvGen, err
 	case "mem-open", "formatted-open":
 		// (no provider level calls here: they need a store that was configured beforehand)
 		gen := func(r *Rng, g int) string {
@@ -800,7 +814,7 @@ func c13Gen(r *Rng, tier string) []string {
 	if tier == "thorough" {
 		n = 30000
 	}
-	targets := []string{"mem", "cached", "batched", "formatted", "kms", "kms2", "session", "pickup", "wsave", "mem-open", "formatted-open"}
+	targets := []string{"mem", "cached", "batched", "formatted", "kms", "kms2", "session", "pickup", "wsave", "mem-open", "formatted-open", "edv"}
 	var out []string
 	for i := 0; i < n; i++ {
 		g := 2 + r.N(7)
